@@ -1,18 +1,65 @@
 #!/usr/bin/env python3
-"""Prints a markdown table of /verif/seeded/*/meta.json (for DESIGN.md section 11)."""
-import glob, json, os
-rows = []
-for f in sorted(glob.glob('/verif/seeded/*/meta.json')):
-    m = json.load(open(f))
-    name = os.path.basename(os.path.dirname(f))
-    sig = ""
-    for l in m.get("check_lines", []):
-        if "signature=" in l:
-            sig = l.split("signature=")[1].split(" ::")[0]
-            break
-    rows.append((name, m.get("property"), (m.get("summary") or "")[:150].replace("|", "/"), (m.get("needs") or "")[:120].replace("|", "/"),
-                 "yes" if m.get("detected") else "NO", sig))
-print("| seeded change | property | what it does | needs | caught by quick check | first signature |")
-print("|---|---|---|---|---|---|")
-for r in rows:
-    print("| %s | %s | %s | %s | %s | `%s` |" % r)
+"""Markdown table of /verif/seeded/*/meta.json (DESIGN.md section 11).
+
+  tools/seedtable.py            print the table
+  tools/seedtable.py --write    replace the text between the SEEDTABLE markers of DESIGN.md
+"""
+import glob, json, os, re, sys
+
+
+def rows():
+    out = []
+    for f in sorted(glob.glob('/verif/seeded/*/meta.json')):
+        m = json.load(open(f))
+        name = os.path.basename(os.path.dirname(f))
+        sig = ""
+        for l in m.get("check_lines", []):
+            if "signature=" in l:
+                sig = l.split("signature=")[1].split(" ::")[0]
+                break
+        rnd = "1"
+        mm = re.search(r"-r(\d)m", name)
+        if mm:
+            rnd = mm.group(1)
+        if m.get("superseded_by"):
+            caught = "superseded by %s" % m["superseded_by"]
+        elif m.get("detected"):
+            caught = "yes"
+        elif m.get("caught_by"):
+            caught = "by %s" % m["caught_by"]
+        else:
+            caught = "NO"
+        out.append((name, m.get("property"), rnd, (m.get("summary") or "")[:150].replace("|", "/"),
+                    (m.get("needs") or "")[:120].replace("|", "/"), caught, sig))
+    return out
+
+
+def table():
+    lines = ["| seeded change | property | round | what it does | needs | caught by quick check | first signature |",
+             "|---|---|---|---|---|---|---|"]
+    rs = rows()
+    for r in rs:
+        lines.append("| %s | %s | %s | %s | %s | %s | `%s` |" % r)
+    n = len(rs)
+    yes = sum(1 for r in rs if r[5] == "yes")
+    other = sum(1 for r in rs if r[5].startswith("by "))
+    sup = sum(1 for r in rs if r[5].startswith("superseded"))
+    no = sum(1 for r in rs if r[5] == "NO")
+    lines.append("")
+    lines.append("%d seeded changes kept: %d caught by the quick check of their property, %d caught by the check of a "
+                 "neighbouring property, %d superseded, %d not caught." % (n, yes, other, sup, no))
+    return "\n".join(lines)
+
+
+if __name__ == "__main__":
+    t = table()
+    if "--write" in sys.argv:
+        p = "/verif/DESIGN.md"
+        s = open(p).read()
+        b, e = "<!-- SEEDTABLE BEGIN -->", "<!-- SEEDTABLE END -->"
+        if b not in s or e not in s:
+            sys.exit("markers not found in DESIGN.md")
+        s = s[:s.index(b) + len(b)] + "\n" + t + "\n" + s[s.index(e):]
+        open(p, "w").write(s)
+    else:
+        print(t)
